@@ -10,7 +10,7 @@ PROP = 'C17'
 RULE = ("IPM files produced by IpmWriter over message lists sized to give each block count 1..10 (and 12, 20) x {latin_1, "
         "cp500, cp037, cp273, cp1140, ascii} x {VBS, 1014} x 20 first messages; invalid classes at their boundaries: "
         "23/24-byte inputs, first length 6000/6001/2^32-1, each unconfigured bit 2..128, hand-built 1013/1014/2027/2028-"
-        "byte samples. Non-trivial = file of at least two blocks or an invalid-class boundary; distinct = distinct file")
+        "byte samples, all 16 patterns of 0x40 at the four trailer positions. Non-trivial = file of at least two blocks or an invalid-class boundary; distinct = distinct file")
 TRUSTED = c01.TRUSTED + ["Model/Info.lean models ipm_info / block_1014_check / bitmap_check / encoding_check; str.isnumeric() "
                          "per byte of latin1 and cp037 is a table regenerated from the interpreter on every run"]
 ASSUMPTIONS = ["ASCII-family codec = digits encode to 0x30..0x39; EBCDIC-family = digits encode to 0xF0..0xF9"]
@@ -58,6 +58,9 @@ def impl_eval(case):
             why = f'a 1014-blocked file of {len(data) // 1014} blocks is reported as not blocked'
         elif not case['b'] and info.get('isBlocked') and not (data[1012:1014] == b'@@'):
             why = 'an unblocked file is reported blocked although bytes 1012-1013 are not both 0x40'
+    elif 'trailers' in case:
+        if info.get('isValidIPM') and info.get('isBlocked') and data[1012:1014] != b'@@':
+            why = 'reported blocked although bytes 1012-1013 are not both 0x40'
     elif 'expect' in case:
         if case['expect'] == 'invalid' and (info.get('isValidIPM') or not info.get('reason')):
             why = f'input of invalid class {case["cls"]} reported {obs}'
@@ -135,6 +138,13 @@ def explore(run, tier):
                  b' ' * 988 + b'@@' + b' ' * 1012 + b'@@' + b' ' * 500, b' ' * 988 + b'@@' + b' ' * 1012 + b'@ ' + b' ' * 500,
                  b' ' * 988 + b'@@' + b' ' * 1012 + b'@@' + b' ' * 1012 + b'@@', b' ' * 988 + b'@ ' + b' ' * 3000]:
         cases.append({'hex': (head + body).hex()})
+    # every combination of the four trailer bytes (1012, 1013, 2026, 2027) in {0x40, other}, at three sample lengths
+    for pat in range(16):
+        t = [b'@' if pat >> i & 1 else b'#' for i in range(4)]
+        for tail in (0, 1, 600):
+            body = b'.' * 988 + t[0] + t[1] + b'.' * 1012 + t[2] + t[3] + b'.' * tail
+            cases.append({'hex': (head + body).hex(), 'trailers': pat})
+    run.exhaustive.append('all 16 patterns of 0x40 / non-0x40 at bytes 1012, 1013, 2026, 2027 x 3 sample lengths')
     for mti in ['1234'.encode('cp037'), 'XXXX'.encode('cp037'), b'\xb2\xb3\xb9\xbc', b'12\xf14', b'\xf1\xf2\xf3\xb9', b'    ']:
         cases.append({'hex': (b'\x00\x00\x00\xff' + mti + b'\x70' + b'\x00' * 15 + b' ' * 50).hex()})
     run.correspond(__name__, cases, use_model=run.use_model, chunk=40)
